@@ -211,3 +211,29 @@ pub fn fw_prefix_lexicon(l: L) -> Vec<String> {
     out.truncate(7);
     out
 }
+
+thread_local! {
+    static FULL_STORES: std::cell::RefCell<std::collections::HashMap<(u8, usize), St>> = std::cell::RefCell::new(std::collections::HashMap::new());
+}
+
+/// The whole e-commerce corpus (3 285 records, id = position, distinct ratings) as ONE store per (language, limit),
+/// built once per worker thread and then only searched.
+pub fn with_full_store<T>(l: L, limit: usize, f: impl FnOnce(&mut St, &[String]) -> T) -> Option<T> {
+    thread_local! { static TITLES: Vec<String> = corpus_ecommerce_titles(); }
+    TITLES.with(|titles| {
+        FULL_STORES.with(|cell| {
+            let mut map = cell.borrow_mut();
+            if !map.contains_key(&(l as u8, limit)) {
+                let recs: Vec<Rec> = titles.iter().enumerate().map(|(i, t)| rec(i, t, (i * 7919) % 3301 + i * 3307)).collect();
+                match St::with(l, &recs, Some(limit), None) {
+                    Ok(st) => {
+                        map.insert((l as u8, limit), st);
+                    }
+                    Err(_) => return None,
+                }
+            }
+            let st = map.get_mut(&(l as u8, limit)).unwrap();
+            Some(f(st, titles))
+        })
+    })
+}
